@@ -93,3 +93,19 @@ RFC5114_G = int(
 
 def root_uuid(rng: random.Random) -> uuid.UUID:
     return uuid.UUID(int=rng.getrandbits(128))
+
+
+def clock_steerable() -> bool:
+    """Does the code under test take 'now' from a clock the harness scripts (time.time_ns / time.time / datetime.now|utcnow)?
+    Decided by observation: one offline protect at a scripted instant in 2215; the blob names that year's L0 iff so."""
+    import dpapi_ng
+    from vf.instruments import monitors as mon
+    from vf.ref import cms, gkdi
+
+    cache = dpapi_ng.KeyCache()
+    rkid = uuid.UUID(int=0xC10C)
+    cache.load_key(bytes(64), rkid)
+    ft = 530 * 1024 * 360000000000 + 777
+    with mon.CLOCK.at_ns(mon.filetime_to_ns(ft)):
+        blob = dpapi_ng.ncrypt_protect_secret(b"probe", "S-1-5-18", root_key_identifier=rkid, cache=cache)
+    return gkdi.dec_key_identifier(cms.parse(blob)["key_identifier"])["l0"] == 530
